@@ -536,6 +536,12 @@ class Pure:
             t = self.block(st.body + rest, dict(env), k)
             f = self.block(st.orelse + rest, dict(env), k)
             return self.wrap(binds, "(if %s then %s else %s)" % (c.text, t, f))
+        if isinstance(st, ast.Return) and isinstance(st.value, ast.IfExp):
+            # return a if t else b   ==   if t: return a / else: return b   (the branches may then have different types)
+            ie = st.value
+            mk = lambda v: ast.copy_location(ast.Return(value=v), st)
+            new_if = ast.copy_location(ast.If(test=ie.test, body=[mk(ie.body)], orelse=[mk(ie.orelse)]), st)
+            return self.block([new_if] + rest, env, k)
         if isinstance(st, ast.Return):
             binds = []
             v = self.expr(st.value, env, binds) if st.value is not None else NONE
@@ -704,9 +710,10 @@ def find_property(tree, cls, name, kind):
     for n in c[0].body:
         if isinstance(n, ast.FunctionDef) and n.name == name:
             decs = [ast.unparse(d) for d in n.decorator_list]
-            if kind == "getter" and decs == ["property"]:
+            # @property / @name.getter / @Base.name.getter    and    @name.setter / @Base.name.setter
+            if kind == "getter" and len(decs) == 1 and (decs[0] == "property" or decs[0] == "%s.getter" % name or decs[0].endswith(".%s.getter" % name)):
                 out.append(n)
-            if kind == "setter" and decs == ["%s.setter" % name]:
+            if kind == "setter" and len(decs) == 1 and (decs[0] == "%s.setter" % name or decs[0].endswith(".%s.setter" % name)):
                 out.append(n)
     if len(out) != 1:
         raise TranslationError("%s.%s (%s) not found exactly once" % (cls, name, kind))
